@@ -104,6 +104,10 @@ class FnGen:
                 self.emit(ind, 'a = (a +')
                 self.emit(ind, '     (tick(%d) or 2) *' % (rng.below(90) + 1))
                 self.emit(ind, '     2)')
+        if self.opts.get('renable') and rng.chance(1, 10):
+            # a redundant raw enable() while the profiler is already on (kernprof -b advertises `profile.enable()`; under -l it is on already)
+            self.feats.add('redundant-enable')
+            self.emit(ind, 'renable()')
         if self.opts.get('snaps') and rng.chance(1, 6):
             # a snapshot taken from inside running profiled code (a progress callback, a periodic report)
             self.feats.add('inner-snapshot')
